@@ -66,11 +66,19 @@ func DrawCell(t *rapid.T, name string) Cell {
 		if hi <= lo {
 			lo, hi = 0, 10
 		}
-		switch rapid.IntRange(0, 9).Draw(t, p.Name+".k") {
+		switch rapid.IntRange(0, 11).Draw(t, p.Name+".k") {
 		case 0:
 			cell[i] = []float64{lo}
-		case 1:
+		case 11:
 			cell[i] = []float64{hi}
+		case 5:
+			// just inside a bound (a snap or a tolerance around the end of a range acts in a sliver next to it)
+			d := (hi - lo) * math.Exp(rapid.Float64Range(math.Log(1e-9), math.Log(1e-3)).Draw(t, p.Name+".near"))
+			if rapid.Bool().Draw(t, p.Name+".nearHi") {
+				cell[i] = []float64{hi - d}
+			} else {
+				cell[i] = []float64{lo + d}
+			}
 		default:
 			cell[i] = []float64{u(t, lo, hi, p.Name)}
 		}
@@ -144,8 +152,11 @@ func DrawCell(t *rapid.T, name string) Cell {
 		set("InflowBias", 0)
 		set("RoutingConstant", logU(t, 1, 1e6, "k"))
 		m := u(t, 0.3, 1, "m")
-		if rapid.IntRange(0, 3).Draw(t, "mone") == 0 {
+		switch rapid.IntRange(0, 7).Draw(t, "mone") {
+		case 0, 7:
 			m = 1
+		case 3:
+			m = 1 - math.Exp(rapid.Float64Range(math.Log(1e-6), math.Log(5e-3)).Draw(t, "mnear")) // just below the linear case
 		}
 		set("RoutingPower", m)
 		set("area", pick(t, "area", 0, 0, 1e3, 1e5))
@@ -219,6 +230,9 @@ func DrawCell(t *rapid.T, name string) Cell {
 		DrawStorageCell(t, desc, cell)
 	case "RatingCurvePartition":
 		n := rapid.IntRange(2, 6).Draw(t, "nPts")
+		if rapid.IntRange(0, 19).Draw(t, "longTable") == 7 {
+			n = rapid.SampledFrom([]int{31, 32, 33, 64, 65, 100}).Draw(t, "nLong")
+		}
 		set("nPts", float64(n))
 		set("inputAmount", IncreasingTable(t, n, pick(t, "first", 0, 0, 1), 20, "amt")...)
 		pr := make([]float64, n)
@@ -310,6 +324,9 @@ func DrawX4(t *rapid.T) float64 {
 func DrawStorageCell(t *rapid.T, desc sim.ModelDescription, cell Cell) {
 	set := func(p string, v ...float64) { cell[ParamIndex(desc, p)] = v }
 	n := rapid.IntRange(2, 6).Draw(t, "nLVA")
+	if rapid.IntRange(0, 19).Draw(t, "longTable") == 7 {
+		n = rapid.SampledFrom([]int{31, 32, 33, 64, 65, 100}).Draw(t, "nLong") // a search that switches strategy by table size
+	}
 	set("DeltaT", pick(t, "dt", 86400, 86400, 3600, 21600))
 	set("nLVA", float64(n))
 	vol := IncreasingTable(t, n, 0, logU(t, 1e4, 1e7, "volstep"), "vol")
